@@ -16,9 +16,11 @@
        provided it does not reorder or mix the batch dimension (batch_aligned) -- this proviso is exactly what the two
        _refuted theorems show to be necessary; flow results keep the axes of the operand;
      - elementwise operations with two tensor operands (ImageBatch / FlowFields / plain in any combination, broadcasting);
+       batch o image (the image is converted to a batch of one); image o batch gives a plain tensor;
      - torch.cat of any number of image batches along the batch dimension and along any other dimension; torch.stack;
      - torch.split (int and list), split_with_sizes, tensor_split (sections and indices) along the batch dimension and
-       along any other dimension;
+       along any other dimension; FlowFields: cat of any number of flow batches and every split form along the batch
+       dimension (grids per entry and axes);
      - __getitem__ for EVERY form (int, slice, index list / tensor / array, boolean mask, Ellipsis, tuples), ImageBatch and
        FlowFields; the narrow method along the batch dimension (also negative dim); __iter__; from_images / collate_samples of
        any selection of items; append; copy / deepcopy / pickle;
@@ -26,11 +28,11 @@
      - programs of any length (induction over the operation list): for a syntactic family of steps, and in general for
        any run whose steps satisfy the step theorems above.
    Covered by the correspondence and the implementation-side evaluation only (no theorem): cat / split of FlowFields
-   (modelled, same code path as ImageBatch plus the axes test), n-ary operations mixing single images and batches,
-   ImageBatch.sample, the VALUES of converted flow vectors (append of other axes: value oracle on the implementation). *)
+   along NON-batch dimensions (modelled, same code path as ImageBatch plus the axes test), operations with three or
+   more operands mixing single images and batches, batch o flow field, ImageBatch.sample, the VALUES of converted flow vectors (append of other axes: value oracle on the implementation). *)
 From Coq Require Import String List ZArith Bool Arith Lia.
 From DV Require Import Model.Enums Model.Batch Model.BatchSpec Model.BatchPins Gen.BatchTables
-  Proofs.C19Base Proofs.C19Generic Proofs.C19Aligned Proofs.C19Cat Proofs.C19GetItem Proofs.C19Split Proofs.C19Flow Proofs.C19Binary Proofs.C19Explicit Proofs.C19Single Proofs.C19Prog Proofs.C19Refuted.
+  Proofs.C19Base Proofs.C19Generic Proofs.C19Aligned Proofs.C19Cat Proofs.C19GetItem Proofs.C19Split Proofs.C19Flow Proofs.C19Binary Proofs.C19Explicit Proofs.C19Single Proofs.C19Prog Proofs.C19Refuted Proofs.C19FlowCat Proofs.C19Mixed.
 Import ListNotations.
 
 (* 0. the tables / conditions / method bodies the model transcribes are the ones in the source now *)
@@ -82,6 +84,27 @@ Theorem C19_binary_sound :
   res_sound gshape [a; b] (run_op gshape gaxes OBinary [a; b]).
 Proof. exact binary_sound. Qed.
 Print Assumptions C19_binary_sound.
+
+(* 1c'. batch o image: the image is converted with Image.batch() and the result keeps the grids of the batch;
+   image o batch: Image.__torch_function__ runs first and the result is a plain tensor (never a wrongly typed one) *)
+Theorem C19_batch_image_binary_sound :
+  forall (gshape : gid -> shape) (gaxes : gid -> axes) (sa : shape) (gs : list gid) (sb : shape) (g : gid),
+  wf_val gshape (mkT sa (TBatch None gs)) -> wf_val gshape (mkT sb (TSingle None g)) ->
+  ndim sa = S (ndim sb) ->
+  res_sound gshape [mkT sa (TBatch None gs); mkT sb (TSingle None g)]
+    (run_op gshape gaxes OBinary [mkT sa (TBatch None gs); mkT sb (TSingle None g)]).
+Proof. exact binary_batch_image_sound. Qed.
+Print Assumptions C19_batch_image_binary_sound.
+
+Theorem C19_image_batch_binary_plain :
+  forall (gshape : gid -> shape) (gaxes : gid -> axes) (sa : shape) (fl : option axes) (g : gid) (sb : shape) (flb : option axes) (gs : list gid),
+  match run_op gshape gaxes OBinary [mkT sa (TSingle fl g); mkT sb (TBatch flb gs)] with
+  | OOne o => v_kind o = TPlain
+  | OErr _ => True
+  | OTuple _ => False
+  end.
+Proof. exact binary_image_batch_plain. Qed.
+Print Assumptions C19_image_batch_binary_plain.
 
 (* 1d. Image / FlowField: a typed result carries the operand's grid (of the data's spatial shape) and its axes *)
 Theorem C19_single_dispatch_ok :
@@ -144,6 +167,22 @@ Theorem C19_split_other_dim_sound :
   res_sound gshape [mkT s (TBatch None gs)] (run_op gshape gaxes o [mkT s (TBatch None gs)]).
 Proof. exact split_other_dim_sound. Qed.
 Print Assumptions C19_split_other_dim_sound.
+
+(* 3c. FlowFields: torch.cat of any number of flow batches with the same axes along the batch dimension; split / split_with_sizes /
+   tensor_split of a flow batch along the batch dimension -- grids per entry AND axes *)
+Theorem C19_flowfields_cat_sound :
+  forall (gshape : gid -> shape) (gaxes : gid -> axes) (ax : axes) (d : dimarg) (a : tval) (args : list tval),
+  cat_dim0 d -> all_flow_batches gshape ax (a :: args) ->
+  res_sound gshape (a :: args) (run_op gshape gaxes (OCat d) (a :: args)).
+Proof. exact cat_flow_dim0_sound. Qed.
+Print Assumptions C19_flowfields_cat_sound.
+
+Theorem C19_flowfields_split_sound :
+  forall (gshape : gid -> shape) (gaxes : gid -> axes) (o : op) (s : shape) (ax : axes) (gs : list gid),
+  split_dim0 o -> wf_val gshape (mkT s (TBatch (Some ax) gs)) ->
+  res_sound gshape [mkT s (TBatch (Some ax) gs)] (run_op gshape gaxes o [mkT s (TBatch (Some ax) gs)]).
+Proof. exact split_flow_batch_dim_sound. Qed.
+Print Assumptions C19_flowfields_split_sound.
 
 (* 4. indexing: every form *)
 Theorem C19_getitem_sound :
